@@ -151,11 +151,14 @@ def check_c14(args):
                 if not str(o.get("err", "")).startswith("bind error"):
                     v.violation({"sql": c["sql"], "config": lab, "error": o},
                                 f"[{lab}] {c['sql']} failed: {o.get('err')}")
+    sstats = scalar_part(seed, tier, v)
+    evals += sstats["evaluations"]
     import sqlknown
     sqlknown.run_repros(v, "C14")
     rc = v.finish()
     write_evidence("C14", tier, seed, "exploration", {
-        "evaluations": evals, "distinct_nontrivial": len(nontriv),
+        "evaluations": evals, "distinct_nontrivial": len(nontriv) + sstats["statements_returning_rows"],
+        "typed_scalar_part": sstats,
         "rule": "select id, e1, e2, e3 from t1 with random expressions of depth <= 3 over arithmetic (+ - * / % neg), "
                 "comparisons, AND/OR/NOT, IS [NOT] NULL, CASE, IN list, LIKE, || on int / varchar columns with NULLs; "
                 "tables of 1, 63, 64, 65, 130, 200 rows (bitmap word boundaries), one or two chunks / row-sets, "
@@ -164,10 +167,71 @@ def check_c14(args):
         "samples": [{"sql": c["sql"], "rows": len(c["db"]["t1"])} for c in cases[:3]],
         "failures_by_kind": {" | ".join(k): n for k, n in errs.items()},
         "known_findings_seen": sorted(v.seen_known)},
-        ["small integers only: overflow, floats, decimals, dates, EXTRACT and casts between numeric widths are not in "
-         "the TLA+ value model (overflow / modulo-by-zero panics are recorded as known findings)"],
+        ["second part (Scalar.tla): select id, e1..e3 with typed expressions over smallint / int / varchar columns "
+         "holding boundary values (MIN, MAX, 32767/32768, 46341, text that does or does not parse), all-NULL columns, "
+         "arithmetic with overflow, unary minus, casts between smallint / int / boolean / varchar, ||, replace, "
+         "repeat, LIKE; the statement must fail iff some expression fails on some row",
+         "bigint, floats, decimals, dates, intervals, EXTRACT, SUBSTRING are not in the TLA+ value model (TLC integers "
+         "are 32 bit)",
+         "error-producing sub-expressions are not generated below AND / OR / CASE / IN (eager vs. lazy evaluation of "
+         "failing branches is not decided by the property)"],
         time.time() - t0, len(v.violations))
     return rc
+
+
+def scalar_part(seed, tier, v):
+    """Typed scalar expressions that can fail (Scalar.tla): widths, overflow, casts, string functions."""
+    import scalarcheck as X
+    n = 1500 if tier == "thorough" else 160
+    cs = X.cases(seed * 97 + 13, n)
+    X.run(cs, "c14s")
+    X.validate(cs, "c14s")
+    st = {"statements": len(cs), "evaluations": 0, "statements_returning_rows": 0, "statements_failing_as_prescribed": 0,
+          "observations": 0}
+    for c in cs:
+        nexpr = len(c["exprs"])
+        for lab, o in c["obs"].items():
+            st["observations"] += 1
+            eng, conf = lab.split(".")
+            fails = c["expected"]["fails"]
+            info = {"sql": c["sql"], "config": lab, "rows": c["rows"][:40], "prescribed_failure": fails}
+            if o.get("hang"):
+                v.violation(dict(info, observed=o), f"[{lab}] {c['sql']} hangs")
+                continue
+            msg = str(o.get("err", ""))
+            if c["match"][lab]:
+                if "rows" in o:
+                    st["evaluations"] += len(o["rows"]) * nexpr
+                    st["statements_returning_rows"] += 1
+                else:
+                    st["statements_failing_as_prescribed"] += 1
+                    if o.get("panic") and v.is_known("F18") and re.search("with overflow|divisor of zero|invalid digit", msg):
+                        v.note_known("F18")       # the failure is a panic that escapes Database::run
+                    elif o.get("panic"):
+                        v.violation(dict(info, observed=o), f"[{lab}] {c['sql']}: panic escapes Database::run: {msg[:120]}")
+                continue
+            if not fails and "rows" not in o:
+                # prescribed: a value for every row; observed: the statement fails
+                if re.search("attempt to (add|subtract|multiply|negate|divide) with overflow", msg) and c["null_arith"] \
+                        and v.is_known("F30"):
+                    v.note_known("F30")
+                    continue
+                v.violation(dict(info, observed=o), f"[{lab}] {c['sql']} fails ({msg[:100]}) although every row has a value")
+            elif fails and "rows" in o:
+                off = c["obs"].get(f"{eng}.off", {})
+                if conf == "on" and c["match"].get(f"{eng}.off") and "with overflow" in str(off.get("err", "")) \
+                        and c["agree_where_defined"][lab] and v.is_known("F31"):
+                    v.note_known("F31")
+                    continue
+                v.violation(dict(info, observed=o["rows"][:10]),
+                            f"[{lab}] {c['sql']} returns rows although an expression fails on some row (out-of-range "
+                            f"cast / overflow / unparsable text must be reported, not wrapped or replaced)")
+            else:
+                exp = {json.dumps(r[0]): r for r in c["expected"]["rows"]}
+                d = next(({"got": r, "want": exp.get(json.dumps(r[0])), "input": c["rows"][r[0][1]] if r[0][0] == "i" and r[0][1] < len(c["rows"]) else None}
+                          for r in o["rows"] if exp.get(json.dumps(r[0])) != r), None)
+                v.violation(dict(info, first_difference=d), f"[{lab}] {c['sql']}: {d}")
+    return st
 
 
 # ------------------------------------------------------------------------------------ C16
